@@ -1182,7 +1182,7 @@ CORPUS_RECV = [
                  ['poll', [1], 0], ['poll', [], 0], ['poll', [], 100000000],
                  ['call', None, 100, 100000000], ['deliver', 0, _m('//', 10, -3, [], 0)], ['deliver', 0, _m('/a/', 11, 0, ['a'], 1)],
                  ['deliver', 0, _m('//', 11, 0, ['a'], 0)],
-                 ['poll', [0], 100000000], ['poll', [0], 100000000], ['poll', [0], 100000000], ['poll', [], 100000000], ['poll', [], 200000000]]),
+                 ['poll', [0], 100000000], ['poll', [0], 100000000], ['poll', [], 100000000], ['poll', [], 200000000]]),
     # W4: an ephemeral source keeps a partial set across the publisher's CLOSE; the new incarnation's id 0 completes it
     dict(name='W4', cfg=dict(balance=False, low_latency=False, srcs=[dict(eph=1, mode=[['a', 'a'], ['b', 'b']])]),
          script=[['call', None, None, 0], ['deliver', 0, _m('/a/', 10, 7, ['a', 'b'], 1)], ['poll', [0], 0],
